@@ -385,6 +385,10 @@ func (c *Conn) OpenUpstream(ctx context.Context, sessionID string, opts ...Upstr
 
 				if err := u.resume(c.wireConn); err != nil {
 					u.logger.Errorf(ctx, "failed to resume upstream: %+v", err)
+					if u.isClosing() {
+						// a Close is under way: keep the event dispatcher until its closed event is queued
+						<-u.ctx.Done()
+					}
 					return
 				}
 				u.logger.Infof(ctx, "Succeeded in resuming upstream %v", u.ID.String())
